@@ -1,11 +1,14 @@
-\* quick tier: case generation and design-level model checking
+\* quick tier, design-level model checking, static half: Model = Expected and Model |= Judge from every static
+\* case (HMax 4) and 1500 random draws of the product space
 CONSTANTS
   HMax = 4
+  SingleKinds = {"node", "way", "relation"}
   BothVis = FALSE
   PairVers = {2, 3}
   NRandom = 1500
-  BuildMax = 2
+  BuildMax = 0
   BuildIds = {1, 2, 3}
+  StaticInit = TRUE
 INIT Init
 NEXT Next
 INVARIANTS ModelIsExpected ModelMeetsJudge PrefixInv ScanInv
